@@ -10,7 +10,8 @@
 //!   optional tail: INS <hex|-> REGS <0|16> {u64}* MINFO <k> {base size prot}*k CPUINFO <hex|-> LSB <hex|->
 //!   INS = instruction bytes planted in a memory region at the exception's ip; REGS = amd64 registers of the
 //!   exception context (rax rcx rdx rbx rsp rbp rsi rdi r8..r15); MINFO = memory-info entries; CPUINFO / LSB =
-//!   text of the Linux cpuinfo / lsb-release streams.
+//!   text of the Linux cpuinfo / lsb-release streams; then LIMITS <hex|-> SOFT <hex|-> MAPS <hex|-> = text of the
+//!   /proc/self/limits, soft-errors (JSON) and /proc/self/maps streams.
 #[path = "c14.rs"]
 #[allow(dead_code)]
 mod c14;
@@ -349,6 +350,14 @@ fn run(line: &str) -> String {
         }
         c.cpuinfo = cpuinfo;
         c.lsb = lsb;
+        if let Some(tok) = x.opt() {
+            assert!(tok == "LIMITS");
+            c.limits = unhex(x.str());
+            c14::expect_tok(&mut x, "SOFT");
+            c.soft = unhex(x.str());
+            c14::expect_tok(&mut x, "MAPS");
+            c.maps = unhex(x.str());
+        }
     }
     if !tn.is_empty() {
         for (j, n) in c.names.iter_mut().enumerate() {
